@@ -1577,6 +1577,8 @@ package decimal128
 //@ loop 3: invariant 0 <= i && i + j == n - 1 && digs.dig[0] != 48 && (forall k in 1..38: n == k ==> digs.dig[k - 1] != 48)
 //@ loop 3: invariant forall m in 1..38: n == m ==> rs(V, digs.exp + 6176) == sum k in 0..37: ite(k < m, ite(k < i || k > j, (digs.dig[k] - 48) * p10(m - 1 - k), (digs.dig[k] - 48) * p10(k)), 0)
 //@ loop 3: decreases j - i + 1
+//@ apply before "digs.ndig = n": hv_sum(arr(digs.dig), ite(n >= 1 && n <= 38, n, 1))
+//@ ensures digs.ndig >= 1 ==> rs(V, digs.exp + 6176) == real(hv(arr(digs.dig), digs.ndig))
 //@ props C06 C07 C20
 
 // ---------------------------------------------------------------------------
@@ -2310,6 +2312,51 @@ package decimal128
 //@ hyp 0 <= n && n <= m
 //@ holds pst(a, n) == 11 ==> pst(a, m) == 11
 //@ props C05 C13
+// a run of digits keeps the parser's automaton in (or moves it into) the digit state of the current part
+//@ lemma pst_digits
+//@ forall a bytes, n int, m int
+//@ induct m from n
+//@ hyp 0 <= n && n <= m
+//@ hyp forall k in n..m - 1: a[k] >= 48 && a[k] <= 57
+//@ holds (pst(a, n) == 1 ==> pst(a, m) == 1) && (pst(a, n) == 5 ==> pst(a, m) == 5) && (pst(a, n) == 9 ==> pst(a, m) == 9) && (m > n ==> (pst(a, n) == 0 ==> pst(a, m) == 1) && (pst(a, n) == 3 || pst(a, n) == 4 ==> pst(a, m) == 5) && (pst(a, n) == 7 || pst(a, n) == 8 ==> pst(a, m) == 9))
+//@ props C05 C06
+// hv(g, n): the integer spelled by the first n digit bytes of g (Horner); the digit record of a Decimal
+// is tied to its value through it
+//@ fold hv
+//@ init 0
+//@ step acc * 10 + (c - 48)
+// copying a run of digits g[q..] to a[p..m) advances the parser's mantissa value like Horner's rule
+//@ lemma dv_copy
+//@ forall a bytes, g bytes, p int, q int, m int
+//@ induct m from p
+//@ hyp 0 <= p && p <= m && 0 <= q
+//@ hyp forall k in p..m - 1: a[k] == g[k - p + q] && a[k] >= 48 && a[k] <= 57
+//@ hyp dv(a, p) == hv(g, q)
+//@ holds (pst(a, p) == 0 || pst(a, p) == 1 ==> dv(a, m) == hv(g, q + m - p) && nfd(a, m) == nfd(a, p) && (m > p ==> pst(a, m) == 1) && ev(a, m) == ev(a, p) && esg(a, m) == esg(a, p)) && (pst(a, p) == 4 || pst(a, p) == 5 ==> dv(a, m) == hv(g, q + m - p) && nfd(a, m) == nfd(a, p) + (m - p) && (m > p ==> pst(a, m) == 5) && ev(a, m) == ev(a, p) && esg(a, m) == esg(a, p))
+//@ props C06
+// a run of zeros: scales the integer part by a power of ten, adds nothing to a fraction that is still zero
+//@ lemma dv_zeros
+//@ forall a bytes, n int, m int
+//@ induct m from n
+//@ hyp 0 <= n && n <= m
+//@ hyp forall k in n..m - 1: a[k] == 48
+//@ holds (pst(a, n) == 1 ==> pst(a, m) == 1 && nfd(a, m) == nfd(a, n) && ev(a, m) == ev(a, n) && esg(a, m) == esg(a, n) && (forall z in 0..21: m - n == z ==> dv(a, m) == dv(a, n) * p10(z))) && (pst(a, n) == 4 || pst(a, n) == 5 ==> (m > n ==> pst(a, m) == 5) && (m == n ==> pst(a, m) == pst(a, n)) && nfd(a, m) == nfd(a, n) + (m - n) && ev(a, m) == ev(a, n) && esg(a, m) == esg(a, n) && (dv(a, n) == 0 ==> dv(a, m) == 0))
+//@ props C06
+// Horner's rule written out: the value of up to 38 digit bytes
+//@ lemma hv_sum
+//@ forall g bytes, n int
+//@ depth 40
+//@ hyp 1 <= n && n <= 38
+//@ holds forall m in 1..38: n == m ==> hv(g, n) == sum k in 0..37: ite(k < m, (g[k] - 48) * p10(m - 1 - k), 0)
+//@ props C06
+// the digits of the exponent part leave mantissa value, fraction count and exponent sign alone
+//@ lemma exp_run
+//@ forall a bytes, n int, m int
+//@ induct m from n
+//@ hyp 0 <= n && n <= m
+//@ hyp forall k in n..m - 1: a[k] >= 48 && a[k] <= 57
+//@ holds pst(a, n) == 7 || pst(a, n) == 8 || pst(a, n) == 9 ==> dv(a, m) == dv(a, n) && nfd(a, m) == nfd(a, n) && esg(a, m) == esg(a, n) && (m > n ==> pst(a, m) == 9) && (m == n ==> pst(a, m) == pst(a, n))
+//@ props C06
 //@ lemma usc_sticky
 //@ forall a bytes, n int, m int
 //@ induct m from n
@@ -2557,6 +2604,12 @@ package decimal128
 //@ callarg digits.fmtE#1: arg_prec == ite(digs.ndig != 0, digs.ndig - 1, 0) && arg_width == 0 && !arg_forceDP && !arg_printSign && !arg_padSign && !arg_padExp && !arg_padRight && !arg_padZero && arg_e == 101
 //@ callarg digits.fmtF#1: arg_prec == ite(digs.exp < 0, 0 - digs.exp, 0) && arg_width == 0 && !arg_forceDP && !arg_printSign && !arg_padSign && !arg_padRight && !arg_padZero
 //@ ensures !special(d) ==> jst(out, len(out)) == 2 || jst(out, len(out)) == 3 || jst(out, len(out)) == 5 || jst(out, len(out)) == 8
+//@ define VS = ite(sign(d), 1, 0)
+//@ define VB = from(out, VS)
+//@ define VL = (len(out) - VS)
+//@ define VEXPO = (ite(esg(VB, VL) == 1, 0 - ev(VB, VL), ev(VB, VL)) - nfd(VB, VL))
+//@ ensures !special(d) && coef(d) != 0 ==> rs(V, 6176 + VEXPO) == real(dv(VB, VL))
+//@ ensures !special(d) && coef(d) == 0 ==> dv(VB, VL) == 0
 //@ props C13 C20
 
 // String / MarshalText (C06): the layout is chosen by the value: positional exactly when
@@ -2576,6 +2629,16 @@ package decimal128
 //@ ensures isinf(d) ==> len(s) == 4 && s[0] == ite(sign(d), 45, 43) && s[1] == 73 && s[2] == 110 && s[3] == 102
 //@ callarg digits.fmtE#1: arg_prec == ite(digs.ndig != 0, digs.ndig - 1, 0) && arg_width == 0 && !arg_forceDP && !arg_printSign && !arg_padSign && arg_padExp && !arg_padRight && !arg_padZero && arg_e == 101
 //@ callarg digits.fmtF#1: arg_prec == ite(digs.exp < 0, 0 - digs.exp, 0) && arg_width == 0 && !arg_forceDP && !arg_printSign && !arg_padSign && !arg_padRight && !arg_padZero
+//@ define NS = ite(sign(d), 1, 0)
+//@ define PA = pst(from(s, NS), len(s) - NS)
+//@ ensures !special(d) && sign(d) ==> s[0] == 45
+//@ ensures !special(d) ==> PA == 1 || PA == 5 || PA == 9
+//@ define VS = ite(sign(d), 1, 0)
+//@ define VB = from(s, VS)
+//@ define VL = (len(s) - VS)
+//@ define VEXPO = (ite(esg(VB, VL) == 1, 0 - ev(VB, VL), ev(VB, VL)) - nfd(VB, VL))
+//@ ensures !special(d) && coef(d) != 0 ==> rs(V, 6176 + VEXPO) == real(dv(VB, VL))
+//@ ensures !special(d) && coef(d) == 0 ==> dv(VB, VL) == 0
 //@ props C06 C20
 
 //@ func Decimal.MarshalText
@@ -2593,6 +2656,16 @@ package decimal128
 //@ ensures isinf(d) ==> len(out) == 4 && out[0] == ite(sign(d), 45, 43) && out[1] == 73 && out[2] == 110 && out[3] == 102
 //@ callarg digits.fmtE#1: arg_prec == ite(digs.ndig != 0, digs.ndig - 1, 0) && arg_width == 0 && !arg_forceDP && !arg_printSign && !arg_padSign && arg_padExp && !arg_padRight && !arg_padZero && arg_e == 101
 //@ callarg digits.fmtF#1: arg_prec == ite(digs.exp < 0, 0 - digs.exp, 0) && arg_width == 0 && !arg_forceDP && !arg_printSign && !arg_padSign && !arg_padRight && !arg_padZero
+//@ define NS = ite(sign(d), 1, 0)
+//@ define PA = pst(from(out, NS), len(out) - NS)
+//@ ensures !special(d) && sign(d) ==> out[0] == 45
+//@ ensures !special(d) ==> PA == 1 || PA == 5 || PA == 9
+//@ define VS = ite(sign(d), 1, 0)
+//@ define VB = from(out, VS)
+//@ define VL = (len(out) - VS)
+//@ define VEXPO = (ite(esg(VB, VL) == 1, 0 - ev(VB, VL), ev(VB, VL)) - nfd(VB, VL))
+//@ ensures !special(d) && coef(d) != 0 ==> rs(V, 6176 + VEXPO) == real(dv(VB, VL))
+//@ ensures !special(d) && coef(d) == 0 ==> dv(VB, VL) == 0
 //@ props C06 C20
 
 //@ func formatArgs.precision
@@ -2687,6 +2760,7 @@ package decimal128
 // first (the digits d_k satisfy sum d_k 10^k = |X|, each 0..9), at least two digits when padExp is set. (The mantissa bytes and the padding are outside
 // this contract.)
 //@ func digits.fmtE
+//@ uses order=file timeout=60
 //@ returns (out)
 //@ requires 0 <= d.ndig && d.ndig <= 39 && 0 - 9900 <= d.exp && d.exp <= 9900 && width <= 100000000 && width >= 0 - 100000000 && prec <= 100000000
 //@ requires forall k in 0..38: k < d.ndig ==> 48 <= d.dig[k] && d.dig[k] <= 57
@@ -2739,6 +2813,39 @@ package decimal128
 //@ assert before "buf = d.pad(buf, start, width, printSign, padSign, padRight, padZero)": JSE ==> jst(buf, X0 + 2) == 7
 //@ assert before "buf = d.pad(buf, start, width, printSign, padSign, padRight, padZero)": JSE ==> jst(buf, LEN) == 8
 //@ ensures JSE && width == 0 ==> jst(out, len(out)) == 8
+//@ define PB = from(buf, MB)
+//@ apply before "buf = d.pad(buf, start, width, printSign, padSign, padRight, padZero)": pst_digits(PB, 2, ite(prec > 0, X0 - MB, 2))
+//@ apply before "buf = d.pad(buf, start, width, printSign, padSign, padRight, padZero)": pst_digits(PB, X0 - MB + 2, LEN - MB)
+//@ assert before "buf = d.pad(buf, start, width, printSign, padSign, padRight, padZero)": JSE ==> pst(PB, 0) == 0 && pst(PB, 1) == 1
+//@ assert before "buf = d.pad(buf, start, width, printSign, padSign, padRight, padZero)": JSE && prec > 0 ==> pst(PB, 2) == 4
+//@ assert before "buf = d.pad(buf, start, width, printSign, padSign, padRight, padZero)": JSE ==> pst(PB, X0 - MB) == ite(prec > 0, 5, 1)
+//@ assert before "buf = d.pad(buf, start, width, printSign, padSign, padRight, padZero)": JSE ==> pst(PB, X0 - MB + 1) == 7
+//@ assert before "buf = d.pad(buf, start, width, printSign, padSign, padRight, padZero)": JSE ==> pst(PB, X0 - MB + 2) == 8
+//@ assert before "buf = d.pad(buf, start, width, printSign, padSign, padRight, padZero)": JSE ==> pst(PB, LEN - MB) == 9
+//@ ensures JSE && width == 0 ==> pst(from(out, SL), len(out) - SL) == 9
+//@ ensures N0 == 0 && width == 0 && d.neg ==> out[0] == 45
+//@ define NN = d.ndig
+//@ define DOT = (prec > 0 && NN >= 2 && prec == NN - 1)
+//@ define SPE = (NN >= 1 && prec == NN - 1)
+//@ define XM = (X0 - MB)
+//@ define TL = (LEN - MB)
+//@ define BL = buf[LEN - 1]
+//@ assert before "buf = d.pad(buf, start, width, printSign, padSign, padRight, padZero)": AE < 10 && !padExp ==> BL - 48 == AE
+//@ assert before "buf = d.pad(buf, start, width, printSign, padSign, padRight, padZero)": AE < 10 && padExp ==> buf[LEN - 2] == 48 && BL - 48 == AE
+//@ assert before "buf = d.pad(buf, start, width, printSign, padSign, padRight, padZero)": 10 <= AE && AE < 100 ==> 10 * (buf[LEN - 2] - 48) + (BL - 48) == AE
+//@ assert before "buf = d.pad(buf, start, width, printSign, padSign, padRight, padZero)": 100 <= AE && AE < 1000 ==> 100 * (buf[LEN - 3] - 48) + 10 * (buf[LEN - 2] - 48) + (BL - 48) == AE
+//@ assert before "buf = d.pad(buf, start, width, printSign, padSign, padRight, padZero)": 1000 <= AE ==> 1000 * (buf[LEN - 4] - 48) + 100 * (buf[LEN - 3] - 48) + 10 * (buf[LEN - 2] - 48) + (BL - 48) == AE
+//@ apply before "buf = d.pad(buf, start, width, printSign, padSign, padRight, padZero)": dv_copy(PB, DG, 0, 0, ite(NN >= 1, 1, 0))
+//@ apply before "buf = d.pad(buf, start, width, printSign, padSign, padRight, padZero)": dv_copy(PB, DG, ite(DOT, 2, 0), ite(DOT, 1, 0), ite(DOT, NN + 1, 0))
+//@ apply before "buf = d.pad(buf, start, width, printSign, padSign, padRight, padZero)": exp_run(PB, ite(JSE, XM + 2, 0), ite(JSE, TL, 0))
+//@ assert before "buf = d.pad(buf, start, width, printSign, padSign, padRight, padZero)": JSE && SPE ==> dv(PB, XM) == hv(DG, NN) && nfd(PB, XM) == NN - 1 && ev(PB, XM) == 0 && esg(PB, XM) == 0
+//@ assert before "buf = d.pad(buf, start, width, printSign, padSign, padRight, padZero)": JSE && SPE ==> dv(PB, XM + 2) == hv(DG, NN) && nfd(PB, XM + 2) == NN - 1 && ev(PB, XM + 2) == 0 && esg(PB, XM + 2) == ite(AX < 0, 1, 0) && pst(PB, XM + 2) == 8
+//@ assert before "buf = d.pad(buf, start, width, printSign, padSign, padRight, padZero)": JSE && SPE ==> dv(PB, TL) == hv(DG, NN) && nfd(PB, TL) == NN - 1 && esg(PB, TL) == ite(AX < 0, 1, 0)
+//@ assert before "buf = d.pad(buf, start, width, printSign, padSign, padRight, padZero)": JSE && SPE && XD >= 3 ==> ev(PB, TL - 2) == ite(XD == 3, buf[LEN - 3] - 48, 10 * (buf[LEN - 4] - 48) + (buf[LEN - 3] - 48))
+//@ assert before "buf = d.pad(buf, start, width, printSign, padSign, padRight, padZero)": JSE && SPE ==> ev(PB, TL) == AE
+//@ define OB = from(out, SL)
+//@ define OL = (len(out) - SL)
+//@ ensures JSE && width == 0 && SPE ==> dv(OB, OL) == hv(DG, NN) && nfd(OB, OL) == NN - 1 && ev(OB, OL) == AE && esg(OB, OL) == ite(AX < 0, 1, 0)
 //@ props C06 C07 C20
 
 // ---------------------------------------------------------------------------------------------
@@ -3080,6 +3187,7 @@ package decimal128
 // DP < 0, the remaining digits, and zeros up to the precision; then pad. Callers round first, so that
 // no digit lies beyond the precision (exp >= -prec).
 //@ func digits.fmtF
+//@ uses order=file timeout=60
 //@ returns (out)
 //@ requires 0 <= d.ndig && d.ndig <= 39 && 0 - 9900 <= d.exp && d.exp <= 9900 && width <= 100000000 && width >= 0 && prec <= 100000000
 //@ requires forall k in 0..38: k < d.ndig ==> 48 <= d.dig[k] && d.dig[k] <= 57
@@ -3157,6 +3265,34 @@ package decimal128
 //@ assert before "buf = d.pad(buf, start, width, printSign, padSign, padRight, padZero)": JS && P0 > 0 ==> jst(buf, LEN) == 5
 //@ assert before "buf = d.pad(buf, start, width, printSign, padSign, padRight, padZero)": JS && P0 <= 0 && !forceDP ==> jst(buf, LEN) == ite(DP > 0, 3, 2)
 //@ ensures JS && width == 0 && !forceDP ==> jst(out, len(out)) == ite(P0 > 0, 5, ite(DP > 0, 3, 2))
+//@ define PB = from(buf, MB)
+//@ apply before "buf = d.pad(buf, start, width, printSign, padSign, padRight, padZero)": pst_digits(PB, 0, IL)
+//@ apply before "buf = d.pad(buf, start, width, printSign, padSign, padRight, padZero)": pst_digits(PB, IL + 1, ite(P0 > 0, LEN - MB, IL + 1))
+//@ assert before "buf = d.pad(buf, start, width, printSign, padSign, padRight, padZero)": JS ==> pst(PB, 0) == 0 && pst(PB, IL) == 1
+//@ assert before "buf = d.pad(buf, start, width, printSign, padSign, padRight, padZero)": JS && P0 > 0 ==> pst(PB, IL + 1) == 4
+//@ assert before "buf = d.pad(buf, start, width, printSign, padSign, padRight, padZero)": JS && P0 > 0 ==> pst(PB, LEN - MB) == 5
+//@ ensures JS && width == 0 && !forceDP ==> pst(from(out, SL), len(out) - SL) == ite(P0 > 0, 5, 1)
+//@ ensures N0 == 0 && width == 0 && d.neg ==> out[0] == 45
+//@ define NN = d.ndig
+//@ define CASE1 = (NN >= 1 && DP >= NN)
+//@ define CASE2 = (NN >= 1 && DP > 0 && DP < NN && P0 > 0)
+//@ define CASE3 = (NN >= 1 && DP <= 0 && P0 > 0)
+//@ apply before "buf = d.pad(buf, start, width, printSign, padSign, padRight, padZero)": dv_copy(PB, DG, 0, 0, ite(DP > 0, ite(DP < NN, DP, NN), 0))
+//@ apply before "buf = d.pad(buf, start, width, printSign, padSign, padRight, padZero)": dv_zeros(PB, ite(CASE1, NN, 0), ite(CASE1, DP, 0))
+//@ apply before "buf = d.pad(buf, start, width, printSign, padSign, padRight, padZero)": dv_copy(PB, DG, ite(CASE2, DP + 1, 0), ite(CASE2, DP, 0), ite(CASE2, NN + 1, 0))
+//@ apply before "buf = d.pad(buf, start, width, printSign, padSign, padRight, padZero)": dv_zeros(PB, ite(CASE3, 2, 0), ite(CASE3, 2 + Z1, 0))
+//@ apply before "buf = d.pad(buf, start, width, printSign, padSign, padRight, padZero)": dv_copy(PB, DG, ite(CASE3, 2 + Z1, 0), 0, ite(CASE3, 2 + Z1 + NN, 0))
+//@ define SP = (P0 == ite(d.exp < 0, 0 - d.exp, 0))
+//@ define TL = (LEN - MB)
+//@ assert before "buf = d.pad(buf, start, width, printSign, padSign, padRight, padZero)": JS && SP && !forceDP && NN >= 1 ==> ev(PB, TL) == 0 && esg(PB, TL) == 0
+//@ assert before "buf = d.pad(buf, start, width, printSign, padSign, padRight, padZero)": JS && SP && !forceDP && NN >= 1 && d.exp < 0 ==> nfd(PB, TL) == 0 - d.exp && dv(PB, TL) == hv(DG, NN)
+//@ assert before "buf = d.pad(buf, start, width, printSign, padSign, padRight, padZero)": JS && SP && !forceDP && NN >= 1 && d.exp >= 0 ==> nfd(PB, TL) == 0 && (forall z in 0..21: d.exp == z ==> dv(PB, TL) == hv(DG, NN) * p10(z))
+//@ define OB = from(out, SL)
+//@ define OL = (len(out) - SL)
+//@ ensures JS && width == 0 && !forceDP && SP && NN >= 1 ==> ev(OB, OL) == 0 && esg(OB, OL) == 0
+//@ ensures JS && width == 0 && !forceDP && SP && NN >= 1 && d.exp < 0 ==> nfd(OB, OL) == 0 - d.exp && dv(OB, OL) == hv(DG, NN)
+//@ ensures JS && width == 0 && !forceDP && SP && NN >= 1 && d.exp >= 0 ==> nfd(OB, OL) == 0 && (forall z in 0..21: d.exp == z ==> dv(OB, OL) == hv(DG, NN) * p10(z))
+//@ ensures JS && width == 0 && !forceDP && NN == 0 && P0 <= 0 ==> OL == 1 && out[SL] == 48
 //@ props C06 C07 C20
 
 //@ func digits.pad
@@ -3168,6 +3304,16 @@ package decimal128
 //@ define SGN = (padZero && (d.neg || printSign || padSign))
 //@ define P = (old(width) - (N0 - S))
 //@ ensures P <= 0 ==> jst(out, len(out)) == old(jst(buf, len(buf)))
+//@ ensures P <= 0 ==> pst(from(out, S), len(out) - S) == old(pst(from(buf, start), len(buf) - start))
+//@ ensures P <= 0 && len(old(buf)) > S ==> pst(from(out, S + 1), len(out) - S - 1) == old(pst(from(buf, start + 1), len(buf) - start - 1))
+//@ ensures P <= 0 ==> dv(from(out, S), len(out) - S) == old(dv(from(buf, start), len(buf) - start))
+//@ ensures P <= 0 && len(old(buf)) > S ==> dv(from(out, S + 1), len(out) - S - 1) == old(dv(from(buf, start + 1), len(buf) - start - 1))
+//@ ensures P <= 0 ==> nfd(from(out, S), len(out) - S) == old(nfd(from(buf, start), len(buf) - start))
+//@ ensures P <= 0 && len(old(buf)) > S ==> nfd(from(out, S + 1), len(out) - S - 1) == old(nfd(from(buf, start + 1), len(buf) - start - 1))
+//@ ensures P <= 0 ==> ev(from(out, S), len(out) - S) == old(ev(from(buf, start), len(buf) - start))
+//@ ensures P <= 0 && len(old(buf)) > S ==> ev(from(out, S + 1), len(out) - S - 1) == old(ev(from(buf, start + 1), len(buf) - start - 1))
+//@ ensures P <= 0 ==> esg(from(out, S), len(out) - S) == old(esg(from(buf, start), len(buf) - start))
+//@ ensures P <= 0 && len(old(buf)) > S ==> esg(from(out, S + 1), len(out) - S - 1) == old(esg(from(buf, start + 1), len(buf) - start - 1))
 //@ ensures len(out) == ite(P > 0, S + width, N0)
 //@ ensures forall k in 0..S - 1: out[k] == old(buf[k])
 //@ ensures !padRight ==> (forall k in 0..S - 1: old(buf)[k] == old(buf[k]))
